@@ -390,8 +390,11 @@ bool StepExtended(ScriptExecutionEnvironment& env, CScript::const_iterator& pc, 
         vch1 = stacktop(-2);
         vch2 = stacktop(-1);
         {
-            CScriptNum num1(vch1, env.fRequireMinimal, 5);
-            CScriptNum num2(vch2, env.fRequireMinimal, 5);
+            // operands of OP_MUL are limited to 4 bytes (like the standard arithmetic opcodes) so that the
+            // product always fits into the 64 bit script number
+            const size_t nMaxNumSize = (env.opcode == OP_MUL) ? 4 : 5;
+            CScriptNum num1(vch1, env.fRequireMinimal, nMaxNumSize);
+            CScriptNum num2(vch2, env.fRequireMinimal, nMaxNumSize);
             switch (env.opcode) {
             case OP_MUL: num1 = num1 * num2; break;
             case OP_DIV:
@@ -402,8 +405,24 @@ bool StepExtended(ScriptExecutionEnvironment& env, CScript::const_iterator& pc, 
                 if (num2 == 0) return set_error(serror, SCRIPT_ERR_UNKNOWN_ERROR); // modulo by zero
                 num1 = num1 % num2;
                 break;
-            case OP_LSHIFT: num1 = num1 << num2; break;
-            case OP_RSHIFT: num1 = num1 >> num2; break;
+            case OP_LSHIFT:
+            case OP_RSHIFT:
+                // shift counts outside 0..63 are undefined for a 64 bit value
+                if (num2 < 0 || num2 > 63) return set_error(serror, SCRIPT_ERR_UNKNOWN_ERROR);
+                if (env.opcode == OP_RSHIFT) {
+                    num1 = num1 >> num2;
+                } else {
+                    // a * 2^b: shift the magnitude and fail if the result does not fit into a script number
+                    const int64_t a = num1.GetInt64();
+                    const int64_t b = num2.GetInt64();
+                    const uint64_t mag = a < 0 ? ~static_cast<uint64_t>(a) + 1 : static_cast<uint64_t>(a);
+                    const uint64_t shifted = mag << b;
+                    if ((shifted >> b) != mag || shifted > static_cast<uint64_t>(std::numeric_limits<int64_t>::max())) {
+                        return set_error(serror, SCRIPT_ERR_UNKNOWN_ERROR);
+                    }
+                    num1 = CScriptNum(a < 0 ? -static_cast<int64_t>(shifted) : static_cast<int64_t>(shifted));
+                }
+                break;
             default: assert(0);
             }
             vch1 = num1.getvch();
